@@ -839,12 +839,45 @@ Section Num.
     | None => c_lits (fst p)
     end.
 
+  (* pot_fill recurses into the filling universe first: when a filler is a
+     lattice, each of its elements that holds another universe moves the cells
+     of that universe (a full 12-entry translation: only the facet selectors and
+     the short GQ cards can fail there) *)
+  Fixpoint transform_universe (sm : smap) (l : list (cellc * cellsum)) : res unit :=
+    match l with
+    | [] => Ok tt
+    | fc :: r => do tt <- transform_lits sm 12 (eff_lits fc); transform_universe sm r
+    end.
+
+  Definition lattice_filler_check (sm : smap) (all : list (cellc * cellsum))
+             (fc : cellc * cellsum) : res unit :=
+    match cs_fill (snd fc), cs_lat (snd fc) with
+    | Some (FLat _ univs), Some _ =>
+        (fix go (us : list (option Z)) : res unit :=
+           match us with
+           | [] => Ok tt
+           | Some v :: r =>
+               if (v =? 0)%Z || (v =? cs_u (snd fc))%Z then go r
+               else do tt <- transform_universe sm (fillers v all); go r
+           | None :: r => go r
+           end) univs
+    | _, _ => Ok tt
+    end.
+
+  Fixpoint lattice_fillers_check (sm : smap) (all l : list (cellc * cellsum)) : res unit :=
+    match l with
+    | [] => Ok tt
+    | fc :: r => do tt <- lattice_filler_check sm all fc; lattice_fillers_check sm all r
+    end.
+
   Fixpoint stage_fill (sm : smap) (all cells : list (cellc * cellsum)) : res unit :=
     match cells with
     | [] => Ok tt
     | (c, cs) :: r =>
         do tt <- match cs_fill cs, cs_lat cs with
                 | Some (FUniv u), None =>
+                    do tt <- (if (cs_u cs =? 0)%Z then lattice_fillers_check sm all (fillers u all)
+                              else Ok tt);
                     let k := if (0 <? cs_filltr cs)%nat then Some (cs_filltr cs) else cs_trcl cs in
                     match k with
                     | None => Ok tt
